@@ -303,6 +303,42 @@ def write_work(chunk):
     return t
 
 
+class SeasonTZ(datetime.tzinfo):
+    """a zone whose offset depends on the date (as zoneinfo/pytz/dateutil zones do): `winter` minutes from October to
+    March, `summer` minutes from April to September; ONE instance is shared by all values written through it"""
+
+    def __init__(self, winter, summer, names):
+        self.w, self.s, self.names = winter, summer, names
+
+    def _summer(self, dt):
+        return dt is not None and 4 <= dt.month <= 9
+
+    def utcoffset(self, dt):
+        return datetime.timedelta(minutes=self.s if self._summer(dt) else self.w)
+
+    def tzname(self, dt):
+        return self.names[1 if self._summer(dt) else 0]
+
+    def dst(self, dt):
+        return datetime.timedelta(minutes=(self.s - self.w) if self._summer(dt) else 0)
+
+
+def season_work(chunk):
+    """values on both sides of an offset change written through the same tzinfo object, in both orders"""
+    DT, TM = lib_types()
+    t = Tally()
+    for winter, summer, names, order in chunk:
+        tz = SeasonTZ(winter, summer, names)
+        vals = [datetime.datetime(2021, 1, 15, 12, 0, 0, 500, tzinfo=tz), datetime.datetime(2021, 7, 15, 12, 0, 0, 999600, tzinfo=tz),
+                datetime.datetime(2021, 12, 31, 23, 59, 59, 999999, tzinfo=tz), datetime.datetime(2022, 4, 1, 0, 0, 0, 0, tzinfo=tz)]
+        if order:
+            vals = vals[::-1]
+        for v in vals:
+            m = winter if not (4 <= v.month <= 9) else summer
+            check_write(t, DT, TM, "datetime", v, m)
+    return t
+
+
 def naive_check(t):
     DT, TM = lib_types()
     for kind, conv, v in (("datetime", DT, datetime.datetime(2024, 1, 1, 12, 0, 0)), ("time", TM, datetime.time(12, 0, 0))):
@@ -354,6 +390,11 @@ def run(ctx):
             variants = [0, 1, 2, 3]
         wjobs.append((m, dts, variants))
     tally.merge(ctx.pmap(write_work, wjobs, chunk=8))
+    sjobs = []
+    for (w, su, names) in ((-300, -240, ("EST", "EDT")), (0, 60, ("GMT", "BST")), (-30, 30, (None, None)), (330, 330, ("IST", "IST")), (-210, -150, ("NST", "NDT")), (600, 660, ("AEST", "AEDT"))):
+        for order in (0, 1):
+            sjobs.append((w, su, names, order))
+    tally.merge(ctx.pmap(season_work, sjobs, chunk=1))
     naive_check(tally)
 
     if tally.counts.get("rejects", 0) < 500:
@@ -372,7 +413,7 @@ def run(ctx):
         "zone names rotating over {none,:EST,:Any Name}; plain notations x all dates x times x ms; rejects: every single-field corruption "
         "(drop/add digit or letter at every digit position, field out of range, unclosed bracket) of "
         f"{len(bases)} valid texts; write: every offset x boundary datetimes x 9 sub-ms parts x tzinfo variants, lexical rule + instant "
-        "rounded to nearest ms + write-then-read within 500 us; every case is a distinct text/value (all counted non-trivial)",
+        "rounded to nearest ms + write-then-read within 500 us; 6 zones whose offset depends on the date, values on both sides of the change written through one shared tzinfo object in both orders; every case is a distinct text/value (all counted non-trivial)",
         "offsets": len(OFFSETS),
         "exhaustive": True,
         "distinct_outcomes": len(tally.outcomes),
